@@ -5,7 +5,7 @@
 EXTENDS Condition, TLC, Json
 CONSTANT L
 GF == <<"-1e300", "-24", "-1", "-5e-324", "-0.0", "0", "5e-324", "5e-7", "1e-6", "0.25", "0.5", "0.55", "1", "1.5", "24", "1e300">>
-GU == <<"0", "1", "2", "240", "48000", "18446744073709551615">>
+GU == <<"0", "1", "2", "240", "48000", "4294967297", "9007199254740993", "18446744073709551614", "18446744073709551615">>   \* incl. 2^32+1, 2^53+1 (no f64 holds it), usize::MAX-1
 GV == <<"-60", "-20", "-1", "0", "0.25", "1", "20", "60">>
 VARIABLE hist
 gvars == <<c, hist>>
